@@ -51,10 +51,90 @@ type ou1 struct {
 	stack map[string]bool
 }
 
+// a bool field of a struct parameter (a request object: setRequest{Quiet: opts.JSON}) is bound like a bool parameter; it
+// is keyed by a synthetic parameter object
+type ou1FieldKey struct {
+	p *ssa.Parameter
+	f string
+}
+
+var (
+	ou1Synth     = map[ou1FieldKey]*ssa.Parameter{}
+	ou1SynthName = map[*ssa.Parameter]string{}
+)
+
+func ou1FieldParam(p *ssa.Parameter, f string) *ssa.Parameter {
+	k := ou1FieldKey{p, f}
+	if sp := ou1Synth[k]; sp != nil {
+		return sp
+	}
+	sp := &ssa.Parameter{}
+	ou1Synth[k] = sp
+	ou1SynthName[sp] = p.Parent().Name() + "." + p.Name() + "." + f
+	return sp
+}
+
+// paramOfBase: the parameter a struct value or pointer is (also when the parameter was spilled to a local because a
+// closure captures it, and seen from inside that closure).
+func paramOfBase(v ssa.Value, d int) *ssa.Parameter {
+	if v == nil || d > 5 {
+		return nil
+	}
+	switch x := strip(v).(type) {
+	case *ssa.Parameter:
+		return x
+	case *ssa.FreeVar:
+		return paramOfBase(bindingOf(x), d+1)
+	case *ssa.Alloc:
+		sts := cellStores(x)
+		if len(sts) == 1 {
+			return paramOfBase(sts[0].Val, d+1)
+		}
+	case *ssa.UnOp:
+		if x.Op == token.MUL {
+			return paramOfBase(x.X, d+1)
+		}
+	}
+	return nil
+}
+
+// structFieldStore: the one value stored into field idx of the struct value handed as arg (a composite literal built in a
+// local right before the call), nil when there is none or more than one.
+func structFieldStore(arg ssa.Value, idx int) ssa.Value {
+	a := strip(arg)
+	if ld, ok := a.(*ssa.UnOp); ok && ld.Op == token.MUL {
+		a = ld.X
+	}
+	al, ok := a.(*ssa.Alloc)
+	if !ok || al.Referrers() == nil {
+		return nil
+	}
+	var val ssa.Value
+	for _, r := range *al.Referrers() {
+		fa, ok := r.(*ssa.FieldAddr)
+		if !ok || fa.Field != idx || fa.Referrers() == nil {
+			continue
+		}
+		for _, u := range *fa.Referrers() {
+			if st, ok := u.(*ssa.Store); ok && st.Addr == ssa.Value(fa) {
+				if val != nil {
+					return nil
+				}
+				val = st.Val
+			}
+		}
+	}
+	return val
+}
+
 func bindKey(fn *ssa.Function, binds map[*ssa.Parameter]tri) string {
 	var ks []string
 	for p, v := range binds {
 		if v != triU {
+			if nme, synth := ou1SynthName[p]; synth {
+				ks = append(ks, fmt.Sprintf("%s=%d", nme, v))
+				continue
+			}
 			ks = append(ks, fmt.Sprintf("%s.%s=%d", p.Parent().Name(), p.Name(), v))
 		}
 	}
@@ -64,6 +144,15 @@ func bindKey(fn *ssa.Function, binds map[*ssa.Parameter]tri) string {
 
 // boolValue evaluates a condition operand under the assumption.
 func (o *ou1) boolValue(v ssa.Value, binds map[*ssa.Parameter]tri) tri {
+	if base, n, ok := fieldLoad(strip(v)); ok {
+		if p := paramOfBase(base, 0); p != nil {
+			if sp := ou1Synth[ou1FieldKey{p, n}]; sp != nil {
+				if t, bound := binds[sp]; bound {
+					return t
+				}
+			}
+		}
+	}
 	v = resolve(v)
 	if b, ok := constBool(v); ok {
 		if b {
@@ -196,6 +285,34 @@ func (o *ou1) eval(fn *ssa.Function, binds map[*ssa.Parameter]tri) *ou1Summary {
 				for i, prm := range cal.Params {
 					if i < len(cc.Args) && prm.Type().String() == "bool" {
 						nb[prm] = o.boolValue(cc.Args[i], binds)
+					}
+					if i >= len(cc.Args) {
+						continue
+					}
+					// a request object: its bool fields are bound like bool parameters
+					pt := prm.Type()
+					if ptr, isPtr := pt.Underlying().(*types.Pointer); isPtr {
+						pt = ptr.Elem()
+					}
+					st, isStruct := pt.Underlying().(*types.Struct)
+					if !isStruct || !strings.HasPrefix(namedTypeName(pt), "ergo.") || namedTypeName(pt) == "ergo.GlobalOptions" {
+						continue
+					}
+					for fi := 0; fi < st.NumFields(); fi++ {
+						if st.Field(fi).Type().String() != "bool" {
+							continue
+						}
+						fname := st.Field(fi).Name()
+						if val := structFieldStore(cc.Args[i], fi); val != nil {
+							nb[ou1FieldParam(prm, fname)] = o.boolValue(val, binds)
+						} else if cp := paramOfBase(cc.Args[i], 0); cp != nil {
+							// the caller's own request object handed on
+							if sp := ou1Synth[ou1FieldKey{cp, fname}]; sp != nil {
+								if t, bound := binds[sp]; bound {
+									nb[ou1FieldParam(prm, fname)] = t
+								}
+							}
+						}
 					}
 				}
 				sub := o.eval(cal, nb)
